@@ -195,6 +195,26 @@ func (am *ACMEIssuer) saveAccount(ctx context.Context, ca string, account acme.A
 // for the given CA from storage.
 func (am *ACMEIssuer) deleteAccountLocally(ctx context.Context, ca string, account acme.Account) error {
 	primaryContact := getPrimaryContact(account)
+
+	// synchronize with account registration, and leave the stored account alone if it
+	// is not the given one (another goroutine or instance may have replaced it already)
+	lockKey := accountRegLockKey(account)
+	if err := acquireLock(ctx, am.config.Storage, lockKey); err != nil {
+		return err
+	}
+	defer func() {
+		if err := releaseLock(ctx, am.config.Storage, lockKey); err != nil {
+			am.Logger.Error("failed to unlock account registration lock", zap.Error(err))
+		}
+	}()
+	stored, err := am.loadAccount(ctx, ca, primaryContact)
+	if err == nil && stored.Location != account.Location {
+		return nil
+	}
+	if err != nil && !errors.Is(err, fs.ErrNotExist) {
+		return err
+	}
+
 	if err := am.config.Storage.Delete(ctx, am.storageKeyUserReg(ca, primaryContact)); err != nil {
 		return err
 	}
